@@ -90,6 +90,14 @@ PROPS["C16"] = dict(units=["bls_consts", "consts", "ops_fp", "wrap64_fp", "field
 WATCH_C16 = {"src/ark_curve/bls12_377.rs": [("ark", "bls")]}
 PROPS["C16"]["watch"] = WATCH_C16
 
+from vx import kani as _kani
+A_FIAT = "A-FIAT: fiat-crypto's documented postconditions for f*_mul, f*_square, f*_from_montgomery (inputs below the modulus), f*_to_montgomery for every input below 2^(32N) (A-FIAT-2), and the Bernstein-Yang divstep inversion of the u32 `inverse` (A-FIAT-3, not under contract: bounded probes)"
+for _p in ("C10", "C11", "C12"):
+    PROPS[_p]["units"] = list(PROPS[_p]["units"]) + ["wrap32_fq", "wrap32_fr", "wrap32_fp"]
+    PROPS[_p]["assumptions"] = list(PROPS[_p]["assumptions"]) + [A_FIAT]
+    PROPS[_p]["engines"] = [_kani.engine()]
+    PROPS[_p]["checker_extra"] = "cargo kani --harness proofs_<f>::h_<f>_<fn> in build/kani_fiat (verbatim fiat.rs via #[path])"
+
 # bounded stand-ins (thorough tier only; never counted as proved): probes of /verif/replay_runner against the real crate
 _F = [("ark", "field.fq"), ("ark", "field.fr"), ("ark", "field.fp"), ("min", "field.fq"), ("min", "field.fr"), ("min", "field.fp")]
 PROBES = {
